@@ -128,6 +128,10 @@ package vm
 // ---- navigation targets (input.go) ----
 // Meaning of the package-level regular expressions (assumed; validated by a
 // bounded run of the real expressions in /verif/bounded).
+// the texts the axioms below (and the documented input format) are about
+//@ pin[C03,C04,C05,C06,C08,C17,C20,C01] ctrlRegexStr = "^[><_^.]$"
+//@ pin[C03,C04,C05,C06,C08,C17,C20,C01] symRegexStr = "^[a-zA-Z0-9][a-zA-Z0-9_]+$"
+//@ pin[C17] inputRegexStr = "^\\+?[a-zA-Z0-9].*$"
 //@ axiom all[string](s, reMatch(ctrlRegex, s) <==> (s == "_" || s == ">" || s == "<" || s == "^" || s == "."))
 //@ axiom all[string](s, reMatch(symRegex, s) ==> len(s) >= 2)
 //@ pred isCtrl(s) = s == "_" || s == ">" || s == "<" || s == "^" || s == "."
